@@ -386,6 +386,35 @@ class TGen:
         return r.choice([t / 2, t, 2.5 * t, 3 * t, 0.3, 1.0, -2 * t, 7 * t, 12 * t, 4.1 * t, 0.7, 9.99 * t, 20 * t, 0.0])
 
 
+def gen_extend_pos(rng):
+    """a TOP-LEVEL doer extends the Doist in MID cycle (doers before and after it in the pass) with pool doers that yield POSITIVE tocks
+    larger than the scheduler tock: the added doer is first due at the tyme it was entered, and its later due tymes count from there"""
+    g = TGen(rng)
+    r, t = rng, g.tock
+    big = lambda: r.choice([1.5 * t, 2 * t, 2.5 * t, 3 * t, t + 0.1, 5 * t])
+    asap6 = lambda: [([], ("yield", g.asap())) for _ in range(r.choice([4, 6, 8]))]
+
+    def lf(steps):
+        i = g.nid()
+        shapes = [sh for sh in S.SHAPES if S.shape_ok(("leaf", i, sh, "ok", steps))]
+        return ("leaf", i, r.choice(shapes), "ok", steps)
+    npool = r.choice([1, 1, 2])
+    n = r.choice([2, 3, 4])
+    ext_at = r.randrange(n)
+    specs = []
+    for k in range(n):
+        steps = asap6()
+        if k == ext_at:
+            j = r.randrange(min(3, len(steps)))
+            steps[j] = ([("extend", [r.randrange(npool) for _ in range(r.choice([1, 1, 2]))])], steps[j][1])
+        elif r.random() < 0.3:
+            steps = [([], ("yield", big()))] + steps
+        specs.append(lf(steps))
+    pool = [lf([([], ("yield", big())) for _ in range(r.choice([1, 2, 3]))] + [([], ("yield", g.asap())) for _ in range(r.choice([0, 1]))])
+            for _ in range(npool)]
+    return ("run", t, g.start, r.choice([None, None, 20 * t]), pool, specs)
+
+
 def gen_degenerate(rng):
     """programs whose Doist deque is EMPTY when the first cycle runs, or empties at once: no doers at all, every doer done at enter,
     DoDoers without kids or whose kids are all done at enter; any tock / start / limit"""
@@ -619,8 +648,12 @@ def c03_analyse(case, d, nested_asap_rule="next-cycle"):
                 for b in range(a + 1, len(ids)):
                     if pos[a] > pos[b]:
                         why.setdefault("inversions", []).append((ids[a], ids[b]))      # ids[a] ran before ids[b] but was entered later
-    # due tymes: only meaningful without ops/faults, for doers whose ancestors all run every cycle
-    if op_free(case) and fault_free(case):
+    # due tymes: only meaningful without faults and removes, for doers whose ancestors all run every cycle.  A doer entered by extend()
+    # in mid run is first due at its enter tyme ("first due tyme = current tyme") and cannot run in the cycle that entered it.
+    no_remove = not any(S.has_op(sp, "remove") for sp in list(case[5]) + list(case[4]))
+    enter_tyme = {e[0]: e[2] for e in tr if e[1] == "enter" and e[2] in idx}
+    first_recur = next((n for n, e in enumerate(tr) if e[1] in ("recur", "recurBad")), len(tr))
+    if no_remove and fault_free(case):
         cleaned = {e[0] for e in tr if e[1] == "clean"}
         for i, s in spec.items():
             if i not in enter_pos or not chain_transparent(i, spec, par):
@@ -634,8 +667,8 @@ def c03_analyse(case, d, nested_asap_rule="next-cycle"):
             else:
                 outs = None
             nested = par[i] != 0
-            due = start
-            kprev = -1
+            due = enter_tyme.get(i, start)
+            kprev = idx[due] - 1 if enter_pos[i] < first_recur else idx[due]     # entered by do() before the first cycle, or by extend() in cycle idx[due]
             obs = resumes.get(i, [])
             alive = True
             for j, k in enumerate(obs):
@@ -2016,6 +2049,11 @@ F46_WITNESS = ("run", 1.0, 0.0, None, [], [_grp(9, [_lf(1, [0.0, 2.5, 0.0, 0.0])
 # known finding C04-K2 = model theorem transparent_under_lagging_dodoer_fails: DoDoer 7 (tock 3) under a Doist with tock 2 comes round
 # at 0, 4, 6, 10, 12 ...; the transparent group 9 inside it is due at tyme + 3 and skips the recurs at 6 and 12
 K2_WITNESS = ("run", 2.0, 0.0, None, [], [_grp(7, [_grp(9, [_lf(1, [1.0] * 5)])], 3.0)])
+# a top-level doer extends the Doist in mid cycle (cycle 1, at tyme 1.0) with doer 5 that yields 2.5 then 1.5: 5 runs at 2.0, 4.0, 5.0
+EXTEND_POS_CORPUS = [
+    ("run", 1.0, 0.0, None, [_lf(5, [2.5, 1.5, 0.0])], [_lf(1, [0.0] * 8), ("leaf", 2, "doify", "ok", [([], ("yield", 0.0)), ([("extend", [0])], ("yield", 0.0))] + [([], ("yield", 0.0))] * 6), _lf(3, [0.0] * 8, "plain")]),
+    ("run", 0.25, 1.0, None, [_lf(5, [0.6, 0.6], "genrecur"), _lf(6, [1.0], "plain")], [("leaf", 1, "bound", "ok", [([("extend", [1, 0])], ("yield", None))] + [([], ("yield", 0.0))] * 9), _lf(2, [0.5] * 4)]),
+]
 DEGENERATE_CORPUS = [
     ("run", 0.25, 3.0, None, [], []),                                  # Doist(tyme=3.0, tock=0.25).do(doers=[]) must end at 3.25
     ("run", 1.0, 0.0, 5.0, [], []),
